@@ -253,6 +253,9 @@ def check_class(case, ctx, rng_key):
         if shape % 4 in (0, 2, 3):
             import xml.etree.ElementTree as _ET
             alts = [("to_string(nspair)", lambda o: o.to_string({"vx": "urn:verif:foreign"})),
+                    # prefixes of the form the serialiser makes up itself (what a caller mirroring a document of this library would ask for)
+                    ("to_string(ns<N> prefixes)", lambda o: o.to_string({"ns0": SAMLP_NS, "ns1": SAML_NS, "ns2": "urn:verif:foreign", "ns3": DS_NS})),
+                    ("to_string(ns1 for another namespace)", lambda o: o.to_string({"ns1": "urn:verif:foreign3", "ns4": cls.c_namespace})),
                     ("to_string_force_namespace", lambda o: o.to_string_force_namespace(
                         {"vf": "urn:verif:foreign", "vg": "urn:verif:foreign3", "vi": "http://www.w3.org/2001/XMLSchema-instance", "own": cls.c_namespace})),
                     ("str()", lambda o: str(o)),
